@@ -146,6 +146,9 @@ func (bA *BitArray) And(o *BitArray) *BitArray {
 }
 
 func (bA *BitArray) and(o *BitArray) *BitArray {
+	if o == nil {
+		return nil
+	}
 	c := bA.copyBits(MinInt(bA.Bits, o.Bits))
 	for i := 0; i < len(c.Elems); i++ {
 		c.Elems[i] &= o.Elems[i]
@@ -167,7 +170,8 @@ func (bA *BitArray) Not() *BitArray {
 }
 
 func (bA *BitArray) Sub(o *BitArray) *BitArray {
-	if bA == nil {
+	if bA == nil || o == nil {
+		// a peer's bit array may be nil (it is decoded from its messages)
 		return nil
 	}
 	bA.mtx.Lock()
